@@ -67,6 +67,36 @@ def comment_jobs(ctx, ruleset, want, extras, n_quick=40, n_thorough=400):
     return out
 
 
+def boundary_jobs(ctx, rulesets, want):
+    """Statements with one line whose length is within a few characters of max_line_length (80) and which a non-layout fix lengthens or
+    shortens (implicit alias -> AS, keyword/function case, quoted-literal style, != / <>): line-length measurement during the fix run must agree
+    with what a fresh run measures."""
+    out = []
+    shapes = [
+        ("implicit-alias", "    %s + another_column_name result_alias"),
+        ("implicit-table-alias", None),
+        ("not-equal", "    CASE WHEN %s <> 0 THEN 1 ELSE 0 END AS flag_value"),
+        ("lower-func", "    coalesce(%s, 0) AS coalesced_value"),
+        ("count-1", "    count(1) + %s AS counted_value"),
+    ]
+    k = 0
+    for name, tmpl in shapes:
+        for n in range(75, 84):
+            if tmpl is None:
+                pad = n - len("FROM  table_alias") 
+                line = "FROM %s table_alias" % ("s" * max(3, pad))
+                sql = "SELECT\n    first_column,\n    second_column\n%s\n" % line
+            else:
+                base = tmpl % "X"
+                ident = "c" * max(3, n - len(base) + 1)
+                line = tmpl % ident
+                sql = "SELECT\n    first_column,\n%s\nFROM some_table\n" % line
+            for r in rulesets:
+                out.append(("ansi", "raw", None, "boundary:%s:%d" % (name, len(line)), sql, r, (), want))
+                k += 1
+    return out
+
+
 def jobs(ctx, rulesets, want, per_quick=2, per_thorough=12, muts_quick=1, muts_thorough=3, max_quick=700, max_thorough=2500, extras=((),)):
     rng = ctx.rng
     per = per_quick if ctx.tier == "quick" else per_thorough
